@@ -1,8 +1,8 @@
 (* Property C13: variational ground-state search is sound and converges on small systems.
    Sweep protocol of mps_common.py (Model/Sweep.v); only statements here, every proof is `exact <lemma of
-   Proofs/SweepP.v>`.  Energy / convergence / canonical-form clauses are decided by the oracle of harness/c13.py
-   (exact diagonalisation) only; see T13_energy_variational_partial. *)
-From TenpyV Require Import Base.Prelude Model.Sweep Proofs.SweepP.
+   Proofs/SweepP.v or Proofs/SweepP2.v>`.  Energy / convergence / canonical-form clauses are decided by the oracle of
+   harness/c13.py (exact diagonalisation) only; see T13_energy_variational_partial. *)
+From TenpyV Require Import Base.Prelude Model.Sweep Proofs.SweepP Proofs.SweepP2.
 
 (* get_sweep_schedule, finite and infinite bc, n = 1, 2, every L > n.  With m right moves (L - n finite, L infinite):
    the schedule has 2m entries; position i is optimised moving right for every i < m and moving left for every
@@ -20,14 +20,15 @@ Theorem T13_schedule_covers : forall (fin : bool) L n, (n = 1 \/ n = 2)%nat -> (
      if nth k ms false then (nth k is 0 + 1)%nat else (nth k is 0 - 1)%nat).
 Proof. exact schedule_covers_full. Qed.
 
-(* PARTIAL (bounded): finite chains of at most 24 sites, three consecutive sweeps from a fresh environment: every
-   LP[i0] / RP[i0+n-1] read to build eff_H was contracted from the CURRENT versions of all sites to its left / right,
-   and after every step every stored environment is current.  Proved by evaluation of the model; missing: the
-   induction over L and the number of sweeps (the state after a sweep repeats up to version numbers), and
-   infinite bc (environments lag by design). *)
-Theorem T13_no_stale_env_partial : forall L n, (n = 1 \/ n = 2)%nat -> (n < L <= 24)%nat ->
-  no_stale L n 3 = true.
-Proof. exact no_stale_bounded. Qed.
+(* Finite bc, UNBOUNDED in the chain length L > n (n = 1, 2) and in the number k of consecutive sweeps, started from
+   a fresh environment (only LP[0], RP[L-1] stored): along repeat_list (schedule true L n) k every LP[i0] / RP[i0+n-1]
+   read to build eff_H was contracted from the CURRENT versions of all sites to its left / right, and after every step
+   every stored environment is current.  Proved by induction (Proofs/SweepP2.v) with the invariant: at schedule
+   position i0 the stored LP have index <= i0, the stored RP have index >= i0 + n - 1, LP[0] and RP[L-1] are stored and
+   all stored environments carry the current site versions.  Not covered: infinite bc (environments lag by design;
+   decided by the oracle / instrumentation of harness/c13.py only). *)
+Theorem T13_no_stale_env : forall L n k, (n = 1 \/ n = 2)%nat -> (n < L)%nat -> no_stale L n k = true.
+Proof. exact no_stale_all. Qed.
 
 (* PARTIAL: E >= E0 only in an eigenbasis of H (diagonal d bounded below by E0, integer amplitudes x):
    <x|H|x> >= E0 <x|x>.  Missing: spectral theorem for the dense Hamiltonian; decided by exact diagonalisation in
@@ -49,5 +50,5 @@ Example T13_example_inf : map (fun e : entry => fst (fst e)) (schedule false 3 1
 Proof. vm_compute. reflexivity. Qed.
 
 Print Assumptions T13_schedule_covers.
-Print Assumptions T13_no_stale_env_partial.
+Print Assumptions T13_no_stale_env.
 Print Assumptions T13_energy_variational_partial.
